@@ -531,9 +531,9 @@ func genKeyBlind(c *ctx, emit func(ev)) {
 		if sc == "ed25519" {
 			emit(ev{"op": "KSeq", "scheme": sc, "steps": rareEd(), "kind": "rare-inverse"})
 		} else {
-			emit(ev{"op": "KSeq", "scheme": sc, "steps": lenSweep(0, c.tierInt(140, 300)), "kind": "context-lengths"})
+			emit(ev{"op": "KSeq", "scheme": sc, "steps": lenSweep(0, c.tierFixed(140, 300)), "kind": "context-lengths"})
 		}
-		nseq, n := c.tierInt(6, 40), c.tierInt(50, 125)
+		nseq, n := c.tierInt(6, 40), c.tierFixed(50, 125)
 		if sc == "ed25519" {
 			nseq = c.tierInt(12, 160)
 		}
